@@ -52,6 +52,23 @@ fn main() {
             println!("MISMATCH pool_round: {} answers differ from the sequential ones over a pool of {} states", pb, pn);
         }
     }
+    if arg(7, 0) != 1 && rounds > 0 {
+        // threads released together onto one root; and states built on one thread continued on another
+        let root = build_repetition_root(seed ^ 9);
+        let rep = round_fresh(&root, depth.min(1), threads, seed as u32, seed);
+        nodes += rep.nodes * rep.threads;
+        if rep.mismatching_threads > 0 || rep.root_changed {
+            bad += 1;
+            println!("MISMATCH fresh round {:?}", rep);
+        }
+        let starts: Vec<_> = (0..threads.min(6)).map(|i| build_root(seed ^ (i as u64 + 11), turns.min(8), false)).collect();
+        let (mb, mc) = migration_round(&starts, 12, seed);
+        nodes += mc;
+        if mb > 0 {
+            bad += 1;
+            println!("MISMATCH migration_round: {} migrated states with wrong successors of {} compared", mb, mc);
+        }
+    }
     if arg(7, 0) != 1 {
         let (span, n) = concurrent_last_owner_drop(1500, threads.min(4).max(2), 30);
         if span > 8 * 1024 {
